@@ -126,13 +126,28 @@ def _branch_allowed(node):
                 m = t.func.value.id
         if m is not None and not node.orelse:
             ok = True
+            temps = set()
             for s in node.body:
                 if not isinstance(s, ast.Assign):
                     ok = False
                     break
                 for tg in s.targets:
                     for tt in (tg.elts if isinstance(tg, (ast.Tuple, ast.List)) else [tg]):
-                        if not (isinstance(tt, ast.Subscript) and _first_index_name(tt) == m):
+                        if isinstance(tt, ast.Name):
+                            temps.add(tt.id)  # a temporary: must not be read after the `if`
+                        elif not (isinstance(tt, ast.Subscript) and _first_index_name(tt) == m):
+                            ok = False
+            if ok and temps:
+                # temporaries assigned under the guard must be dead outside it
+                par = getattr(node, "_parent", None)
+                after = []
+                for field in ("body", "orelse"):
+                    block = getattr(par, field, None)
+                    if isinstance(block, list) and node in block:
+                        after = block[block.index(node) + 1 :]
+                for st in after:
+                    for n in ast.walk(st):
+                        if isinstance(n, ast.Name) and isinstance(n.ctx, ast.Load) and n.id in temps:
                             ok = False
             if ok:
                 return "no-op when the mask is empty"
